@@ -743,7 +743,8 @@ def graph_case(n, edges, place, diamond, rng, twin=False, cp_targets=False):
 
     def cmp_(own, b):
         tag[0] += 1
-        return ("cmp", ("act", ("action", ABS[place[b]] - ABS[own] + b), [1]), "EQUALS", ("lit", "SInt", tag[0]))
+        act, lit = ("act", ("action", ABS[place[b]] - ABS[own] + b), [1]), ("lit", "SInt", tag[0])
+        return ("cmp", act, "EQUALS", lit) if rng.random() < 0.6 else ("cmp", lit, "DOES_NOT_EQUAL", act)      # the literal may be on the left
 
     def empty():
         return {"parties": [{"id": 0, "name": 200}],
